@@ -16,13 +16,20 @@ def end_suffix_free(h):
     return not any(pat.match(h[k:]) for k in range(len(h)))
 
 
+#: how a notice begins (documented tags: docs/man/reuse-annotate.rst, REUSE specification): the tag, then white space
+NOTICE_START = re.compile(r"(SPDX-(File|Snippet)CopyrightText:|Copyright|©)\s")
+
+
 def wf_holder(h: str) -> bool:
-    """The holders the property quantifies over (independent Python statement of Lean's WFHolder)."""
+    """The holders the property quantifies over (independent Python statement; Lean's WFHolder is the narrower
+    'no Copyright / © inside at all').  A holder that merely *begins like* a tag glued to more letters
+    ('Copyrighted Works Ltd.', '©tudio', '(C)ompany', 'SPDX-FileCopyrightTextual') or that carries the word
+    where no white space follows ('Acme Copyright') is a holder like any other."""
     if not h or h != h.strip() or any(c in h for c in SPLITLINES_BREAKS):
         return False
-    if "Copyright" in h or "©" in h:        # would itself be (part of) a notice
+    if NOTICE_START.search(h):                     # would itself be (or contain) a notice
         return False
-    if h.startswith("(C)") or h.startswith("(c)"):   # would extend the prefix
+    if re.match(r"\([Cc]\)\s", h):                 # '(C) Holder' would extend the prefix
         return False
     if re.match(r"\d", h[0]):                      # would be read as the year
         return False
@@ -31,6 +38,32 @@ def wf_holder(h: str) -> bool:
 
 def is_notice(h: str) -> bool:
     return impl_search(h) is not None
+
+
+GLUED_TAGS = ["Copyright", "©", "(C)", "(c)", "SPDX-FileCopyrightText", "SPDX-FileCopyrightText:", "SPDX-SnippetCopyrightText:", "Copyright (C)", "Copyright (c)"]
+GLUED_TAILS = ["ed Works Ltd.", "s Agency e.V. <https://rights.example>", "tudio Ñandú GmbH", "ompany", "ual", "-Free Software Ltd", "_x", "'s Best",
+               ".io", "/Left"]
+GLUED_HOLDERS = sorted({t + tail for t in GLUED_TAGS for tail in GLUED_TAILS if not (t.endswith(")") and tail[0] in "_")} | {
+    "Acme Copyright", "Acme ©", "Acme (C)", "non©ommercial", "Jane Copyrights Dept", "The Copyleft Copyright", "Copyright", "©", "(C)", "Team ©opy"})
+
+
+def notice_statements():
+    """Statements that already are notices: every documented tag — the ten --copyright-prefix texts, their (c) spellings and the
+    SPDX-SnippetCopyrightText: forms — then white space, optional years in every form the reader knows, then a holder."""
+    from reuse.copyright import _COPYRIGHT_PREFIXES
+    tags = list(_COPYRIGHT_PREFIXES.values())
+    tags += [t.replace("(C)", "(c)") for t in tags if "(C)" in t]
+    tags += [t.replace("SPDX-FileCopyrightText:", "SPDX-SnippetCopyrightText:") for t in tags if t.startswith("SPDX-File")]
+    years = [None, "2020", "2019-2021", "2019 - 2021", "2019 -2021", "2019- 2021", "2020,"]
+    holders = ["Jane Doe <jane@example.com>", "Example, Inc."]
+    out = []
+    for i, t in enumerate(tags):
+        for j, y in enumerate(years):
+            h = holders[(i + j) % 2]
+            out.append("%s %s%s" % (t, (y + " ") if y else "", h))
+            if (i + j) % 5 == 0:
+                out.append("%s\t%s%s" % (t, (y + "  ") if y else "", h))      # other white space between the parts
+    return out
 
 
 class MakeParseStream(textcorr.MkLineStream):
@@ -46,12 +79,22 @@ class MakeParseStream(textcorr.MkLineStream):
                                "Jane (maintainer)", "GmbH & Co. KG", "Jane Doe, John Doe", "x/y", "Jane #1", "100% Code Ltd", "C. Opyright",
                                "Copy Right Inc."]
 
+    # holders that merely begin like (or carry) a tag, glued to more characters or followed by nothing: holders like any other
+    HOLD = HOLD + GLUED_HOLDERS
+
     def cases(self, tier, rng):
         from reuse.copyright import _COPYRIGHT_PREFIXES
         for h in self.HOLD:
             for y in YEARS:
                 for p in _COPYRIGHT_PREFIXES:
                     yield {"h": h, "y": y, "p": p}
+        # statements that already are notices, in every notation (generator's ground truth: tag, white space, [years], holder)
+        prefs = list(_COPYRIGHT_PREFIXES)
+        for i, st in enumerate(notice_statements()):
+            combos = [(y, p) for y in YEARS for p in prefs] if tier == "thorough" else [
+                (YEARS[(i + k) % len(YEARS)], prefs[(i * 3 + k * 7) % len(prefs)]) for k in range(4)]
+            for y, p in combos:
+                yield {"h": st, "y": y, "p": p, "n": True}
 
     def oracle(self, case, impl_out):
         from reuse.copyright import _COPYRIGHT_PREFIXES
@@ -59,7 +102,7 @@ class MakeParseStream(textcorr.MkLineStream):
             return "make-crash: " + impl_out
         line = dec(impl_out)
         h, y, p = case["h"], case["y"], case["p"]
-        if is_notice(h):
+        if case.get("n") or NOTICE_START.search(h) or is_notice(h):
             return None if line == h else "not-verbatim: %r already is a notice but became %r" % (h, line)
         if not wf_holder(h):
             return None
